@@ -80,7 +80,15 @@ class Highlighter(object):
             # The source is not available (code run by exec(), a deleted file)
             return []
 
-        token_lines = self.highlighted_lines(source)
+        try:
+            token_lines = self.highlighted_lines(source)
+        except (tokenize.TokenError, SyntaxError):
+            # The file is not (valid) Python - a template, a data file: its lines are shown as they are
+            token_lines = [
+                escape_markup(source_line)
+                for source_line in source.replace("\r\n", "\n").replace("\r", "\n").split("\n")
+            ]
+
         token_lines = self.line_numbers(token_lines, line)
 
         offset = line - lines_before - 1
@@ -467,7 +475,7 @@ class ExceptionTrace(object):
                             code_line = Highlighter(
                                 supports_utf8=io.supports_utf8()
                             ).highlighted_lines(frame.line.strip())[0]
-                        except tokenize.TokenError:
+                        except (tokenize.TokenError, SyntaxError):
                             code_line = escape_markup(frame.line.strip())
 
                         self._render_line(
